@@ -33,9 +33,19 @@ impl IdxModel<usize> for IndexList<Vec<u32>, Vec<u64>> {
     }
 }
 
+/// Which structural expectation `walk` verifies (so that a broken collapsing node is never
+/// reported against the density property and vice versa).
+#[derive(Clone, Copy, Debug, PartialEq, Eq)]
+pub enum Walk {
+    /// C11: equal consecutive items at a collapsing node return the same index
+    Collapse,
+    /// C12: consecutive-pairs / columns nodes return 0, 1, 2, ...
+    Dense,
+}
+
 pub trait Model: Region {
     fn min_used(vs: &[&Self::Owned]) -> usize;
-    fn walk(_seq: &[(&Self::Owned, Self::Index)]) -> Result<(), String> {
+    fn walk(_seq: &[(&Self::Owned, Self::Index)], _mode: Walk) -> Result<(), String> {
         Ok(())
     }
     /// (collapsing nodes, dense nodes) that `walk` inspects.
@@ -103,7 +113,7 @@ impl<R: Model> Model for OptionRegion<R> {
         let inner: Vec<&R::Owned> = vs.iter().filter_map(|v| v.as_ref()).collect();
         R::min_used(&inner)
     }
-    fn walk(seq: &[(&Option<R::Owned>, Option<R::Index>)]) -> Result<(), String> {
+    fn walk(seq: &[(&Option<R::Owned>, Option<R::Index>)], mode: Walk) -> Result<(), String> {
         let mut inner = Vec::new();
         for (v, i) in seq {
             match (v, i) {
@@ -112,7 +122,7 @@ impl<R: Model> Model for OptionRegion<R> {
                 _ => return Err("option index variant differs from the pushed value's".into()),
             }
         }
-        R::walk(&inner).map_err(|e| format!("Some: {e}"))
+        R::walk(&inner, mode).map_err(|e| format!("Some: {e}"))
     }
     fn nodes() -> (usize, usize) {
         R::nodes()
@@ -125,7 +135,7 @@ impl<T: Model, E: Model> Model for ResultRegion<T, E> {
         let errs: Vec<&E::Owned> = vs.iter().filter_map(|v| v.as_ref().err()).collect();
         T::min_used(&oks) + E::min_used(&errs)
     }
-    fn walk(seq: &[(&Result<T::Owned, E::Owned>, Result<T::Index, E::Index>)]) -> Result<(), String> {
+    fn walk(seq: &[(&Result<T::Owned, E::Owned>, Result<T::Index, E::Index>)], mode: Walk) -> Result<(), String> {
         let mut oks = Vec::new();
         let mut errs = Vec::new();
         for (v, i) in seq {
@@ -135,8 +145,8 @@ impl<T: Model, E: Model> Model for ResultRegion<T, E> {
                 _ => return Err("result index variant differs from the pushed value's".into()),
             }
         }
-        T::walk(&oks).map_err(|e| format!("Ok: {e}"))?;
-        E::walk(&errs).map_err(|e| format!("Err: {e}"))
+        T::walk(&oks, mode).map_err(|e| format!("Ok: {e}"))?;
+        E::walk(&errs, mode).map_err(|e| format!("Err: {e}"))
     }
     fn nodes() -> (usize, usize) {
         let (a, b) = T::nodes();
@@ -156,10 +166,10 @@ macro_rules! tuple_model {
                 )+
                 total
             }
-            fn walk(seq: &[(&($($n::Owned,)+), ($($n::Index,)+))]) -> Result<(), String> {
+            fn walk(seq: &[(&($($n::Owned,)+), ($($n::Index,)+))], mode: Walk) -> Result<(), String> {
                 $(
                     let part: Vec<(&$n::Owned, $n::Index)> = seq.iter().map(|(v, i)| (&v.$i, i.$i)).collect();
-                    $n::walk(&part).map_err(|e| format!("field {}: {e}", $i))?;
+                    $n::walk(&part, mode).map_err(|e| format!("field {}: {e}", $i))?;
                 )+
                 Ok(())
             }
@@ -194,12 +204,17 @@ where
         }
         R::min_used(&dedup)
     }
-    fn walk(seq: &[(&R::Owned, R::Index)]) -> Result<(), String> {
+    fn walk(seq: &[(&R::Owned, R::Index)], mode: Walk) -> Result<(), String> {
         use crate::val::Same;
         let mut inner: Vec<(&R::Owned, R::Index)> = Vec::new();
         for (k, (v, i)) in seq.iter().enumerate() {
             if let Some((lv, li)) = inner.last() {
-                if lv.peq(v) {
+                if mode == Walk::Dense {
+                    // whatever was collapsed (same index returned) did not reach the inner region
+                    if li.same(i) {
+                        continue;
+                    }
+                } else if lv.peq(v) {
                     if !li.same(i) {
                         return Err(format!(
                             "collapsing node: push #{k} equals its predecessor but returned index {} instead of {}",
@@ -212,7 +227,7 @@ where
             }
             inner.push((v, *i));
         }
-        R::walk(&inner)
+        R::walk(&inner, mode)
     }
     fn nodes() -> (usize, usize) {
         let (a, b) = R::nodes();
@@ -228,7 +243,10 @@ where
     fn min_used(vs: &[&R::Owned]) -> usize {
         R::min_used(vs) + O::min_bytes(vs.len() + 1)
     }
-    fn walk(seq: &[(&R::Owned, usize)]) -> Result<(), String> {
+    fn walk(seq: &[(&R::Owned, usize)], mode: Walk) -> Result<(), String> {
+        if mode != Walk::Dense {
+            return Ok(());
+        }
         for (k, (_, i)) in seq.iter().enumerate() {
             if *i != k {
                 return Err(format!("consecutive-pairs node: push #{k} returned index {i}"));
@@ -256,7 +274,10 @@ where
         let cells: usize = vs.iter().map(|v| v.len()).sum();
         total + cells * std::mem::size_of::<R::Index>() + O::min_bytes(vs.len() + 1)
     }
-    fn walk(seq: &[(&Vec<R::Owned>, usize)]) -> Result<(), String> {
+    fn walk(seq: &[(&Vec<R::Owned>, usize)], mode: Walk) -> Result<(), String> {
+        if mode != Walk::Dense {
+            return Ok(());
+        }
         for (k, (_, i)) in seq.iter().enumerate() {
             if *i != k {
                 return Err(format!("columns node: push #{k} returned index {i}"));
